@@ -192,4 +192,16 @@ inductive OwnerOpt where
   | name | nameOrNone | explicitOrName | noOption | unknown
 deriving DecidableEq, Repr, Inhabited
 
+/-- C15: a `state.EventType` constant as tested by `runtime.processEvents` (`e.Type == state.X`) -/
+inductive EvKind where
+  | created | updated | destroyed | bootstrapped | noop | errored | unknown
+deriving DecidableEq, Repr, Inhabited
+
+/-- C15: what `runtime.processEvents` does to the read cache for one event of a cached kind:
+    `CacheAppend` / `CachePut` / `CacheRemove` / `MarkBootstrapped`, nothing, or abort of the
+    watch loop (`return false`) -/
+inductive CacheAct where
+  | append | put | remove | mark | skip | abort | unknown
+deriving DecidableEq, Repr, Inhabited
+
 end Cosi.Gen
